@@ -481,6 +481,44 @@ def t17_thai(run, fx):
         run.ok(rule, "%d above-base marks, %d points evaluated" % (len(THAI_LAO_ABOVE), len(pts)))
 
 
+
+def t17_mps(run, fx, floors=True):
+    rule = "T17-MPS"
+    run.rule(rule, "the script-specific mark reordering functions sort every text: in each function other than the dispatcher that calls "
+                   "sort_by_modified_combining_class, every path from entry to a normal return passes that call (a fast path that returns early "
+                   "leaves mark runs unsorted); only a return for a text of fewer than two characters may bypass it")
+    import guards
+    n = 0
+    for b in fx.bodies:
+        if b.kind == "Closure" or b.root == "scripts::preprocess_text" or b.root.startswith("unicode::mcc::"):
+            continue
+        cut = {bi for bi, t in b.calls() if (t["callee"].get("path") or "").endswith("mcc::sort_by_modified_combining_class")}
+        if not cut:
+            continue
+        n += 1
+        prov = sym.Prov(b)
+        trivial = set()
+        for tb, fb, op, x, y, sw in guards.branch_conditions(b, prov):
+            for blk, o in ((tb, op), (fb, guards.CMP_NEG.get(op))):
+                if blk is None or o is None:
+                    continue
+                xs, ys = sym.strip(x), sym.strip(y)
+                if xs[0] == "call" and (xs[4] or xs[1] or "").endswith("::len") and ys[0] == "c" and isinstance(ys[1], int):
+                    if (o == "Lt" and ys[1] <= 2) or (o == "Le" and ys[1] <= 1) or (o == "Eq" and ys[1] <= 1):
+                        trivial.add(blk)
+        for tb, fb, call, sw in guards.bool_call_conditions(b, prov):
+            if tb is not None and (call[4] or call[1] or "").endswith("::is_empty"):
+                trivial.add(tb)
+        reach = b.reach_from(0, avoid=frozenset(cut | trivial))
+        leaks = [r for r in b.return_blocks() if r in reach]
+        if leaks:
+            run.fail(rule, "sort-bypassed:%s" % b.root, "%s can return without calling sort_by_modified_combining_class: on that path mark runs keep their input order" % b.path,
+                     "%s:%s" % (b.file, b.line))
+        else:
+            run.ok(rule, "%s sorts on every path" % b.path)
+    if floors and n < 4:
+        run.anchor_missing(rule, "script functions that call sort_by_modified_combining_class (found %d)" % n)
+
 def check(run, fx, tier, floors=True):
     if floors or fx.body("scripts::arabic::is_modifier_combining_mark") is not None:
         t17_mcm(run, fx)
@@ -496,6 +534,8 @@ def check(run, fx, tier, floors=True):
         t17_mcc(run, fx)
     if floors or fx.body("scripts::thai_lao::is_abovebase_mark") is not None:
         t17_thai(run, fx)
+    if floors or fx.body("scripts::arabic::reorder_marks") is not None:
+        t17_mps(run, fx, floors)
     r = t17_disp(run, fx)
     rule = "T17-EFF"
     run.rule(rule, "every use of the character buffer's mutable capability reachable from preprocess_text is a stable permutation primitive or a "
